@@ -7,17 +7,29 @@ import "pipelined.dev/signal"
 type Pool interface {
 	Get(byValue bool) View
 	Put(v View, byValue bool)
+	// Copy returns a handle that shares the allocator BY VALUE: it owns one persistent copy of the
+	// PoolAllocator value (as a goroutine that was handed the allocator by value would).
+	Copy() Pool
 }
 
 type pool[T signal.SignalTypes] struct {
 	ty      string
 	p       *signal.PoolAllocator[T]
 	byValue signal.PoolAllocator[T]
+	own     bool
+}
+
+func (p *pool[T]) Copy() Pool {
+	return &pool[T]{ty: p.ty, p: p.p, byValue: p.byValue, own: true}
 }
 
 func (p *pool[T]) Get(byValue bool) View {
 	var b *signal.Buffer[T]
-	if byValue {
+	if byValue && p.own {
+		begin()
+		b = p.byValue.Get() // this handle's own persistent copy of the value
+		end()
+	} else if byValue {
 		cp := p.byValue
 		begin()
 		b = cp.Get()
@@ -32,7 +44,11 @@ func (p *pool[T]) Get(byValue bool) View {
 
 func (p *pool[T]) Put(v View, byValue bool) {
 	b := v.(*buf[T]).b
-	if byValue {
+	if byValue && p.own {
+		begin()
+		p.byValue.Put(b)
+		end()
+	} else if byValue {
 		cp := p.byValue
 		begin()
 		cp.Put(b)
